@@ -248,10 +248,10 @@ func runC04(c *Ctx) {
 
 // c04expect: what the property demands for a cell.
 type c04expect struct {
-	mustCall     bool // key must be invoked (operation proceeds)
-	mustNotCall  bool // key must not be invoked and the call must fail
-	mismatch     bool // the error must be ErrAlgorithmMismatch
-	mustInject   bool // sign path: alg of the signer must end up inside the signed bytes
+	mustCall    bool // key must be invoked (operation proceeds)
+	mustNotCall bool // key must not be invoked and the call must fail
+	mismatch    bool // the error must be ErrAlgorithmMismatch
+	mustInject  bool // sign path: alg of the signer must end up inside the signed bytes
 }
 
 func c04expectation(cell c04cell, signPath bool) c04expect {
@@ -385,8 +385,8 @@ func c04runCell(c *Ctx, rec *mon.Recorder, cell c04cell, idx int) {
 		other := &mon.SpySigner{Alg: cose.AlgorithmES256}
 		otherV := &mon.SpyVerifier{Alg: cose.AlgorithmES256}
 		var err error
-		var emitted []byte   // bytes emitted after a successful sign
-		var protIdx int      // index of this layer's protected element in ToBeSigned
+		var emitted []byte // bytes emitted after a successful sign
+		var protIdx int    // index of this layer's protected element in ToBeSigned
 		var emittedProt func(wire []byte) ([]byte, bool)
 		ran := false
 		hcopy := func() cose.Headers {
